@@ -57,11 +57,38 @@ type config struct {
 	cb     bool // callback registered
 	depth  int
 	same   bool // alphabet additionally holds StoreSame(k): the value stored is constant per key
+	exotic bool // the keys are unusual but legal map keys: nil, 0, "", struct{}{}, 1.5 (any comparable value is a key)
+}
+
+// exoticKeys maps the key labels of the alphabet to unusual keys.
+var exoticKeys = map[string]interface{}{"a": nil, "b": 0, "c": "", "d": struct{}{}, "e": 1.5}
+
+func (cf config) rk(label string) interface{} {
+	if cf.exotic {
+		if k, ok := exoticKeys[label]; ok {
+			return k
+		}
+	}
+	return label
+}
+
+func (cf config) label(k interface{}) string {
+	if cf.exotic {
+		for l, x := range exoticKeys {
+			if x == k {
+				return l
+			}
+		}
+	}
+	return fmt.Sprint(k)
 }
 
 func (cf config) String() string {
 	if cf.same {
 		return fmt.Sprintf("cap=%d warm=%d prefill=%d cb=%v depth=%d +StoreSame", cf.cap, cf.warm, cf.prefil, cf.cb, cf.depth)
+	}
+	if cf.exotic {
+		return fmt.Sprintf("cap=%d warm=%d prefill=%d cb=%v depth=%d keys=nil,0,\"\",struct{}{},1.5", cf.cap, cf.warm, cf.prefil, cf.cb, cf.depth)
 	}
 	return fmt.Sprintf("cap=%d warm=%d prefill=%d cb=%v depth=%d", cf.cap, cf.warm, cf.prefil, cf.cb, cf.depth)
 }
@@ -76,7 +103,7 @@ func runSeq(cf config, ops []op, seq []int, c *runner.Ctx) (sig, detail string, 
 	lru := valid.NewLRU(cf.cap)
 	var log []cbrec
 	if cf.cb {
-		lru.SetDelCallBackFn(func(k, v interface{}) { log = append(log, cbrec{fmt.Sprint(k), v}) })
+		lru.SetDelCallBackFn(func(k, v interface{}) { log = append(log, cbrec{cf.label(k), v}) })
 	}
 	m := lrumodel.New(cf.cap)
 	step := 0
@@ -91,7 +118,7 @@ func runSeq(cf config, ops []op, seq []int, c *runner.Ctx) (sig, detail string, 
 	}
 	for i := 0; i < cf.prefil; i++ {
 		step++
-		lru.Store(ops[i].key, -step)
+		lru.Store(cf.rk(ops[i].key), -step)
 		m.Store(ops[i].key, -step)
 		calls++
 	}
@@ -120,15 +147,15 @@ func runSeq(cf config, ops []op, seq []int, c *runner.Ctx) (sig, detail string, 
 		calls++
 		switch o.kind {
 		case 'S':
-			lru.Store(o.key, step)
+			lru.Store(cf.rk(o.key), step)
 			m.Store(o.key, step)
 			trace = append(trace, o.String())
 		case 'T':
-			lru.Store(o.key, "same-"+o.key)
+			lru.Store(cf.rk(o.key), "same-"+o.key)
 			m.Store(o.key, "same-"+o.key)
 			trace = append(trace, o.String())
 		case 'L':
-			v, ok := lru.Load(o.key)
+			v, ok := lru.Load(cf.rk(o.key))
 			mv, mok := m.Load(o.key)
 			trace = append(trace, fmt.Sprintf("%s=%v,%v", o, v, ok))
 			if ok != mok {
@@ -142,7 +169,7 @@ func runSeq(cf config, ops []op, seq []int, c *runner.Ctx) (sig, detail string, 
 				return "load-stale-value", fmt.Sprintf("%v: got %v model %v", trace, v, mv), calls, false
 			}
 		case 'D':
-			lru.Delete(o.key)
+			lru.Delete(cf.rk(o.key))
 			m.Delete(o.key)
 			trace = append(trace, o.String())
 		case 'N':
@@ -181,7 +208,7 @@ func runSeq(cf config, ops []op, seq []int, c *runner.Ctx) (sig, detail string, 
 			continue
 		}
 		seen[o.key] = true
-		v, ok := lru.Load(o.key)
+		v, ok := lru.Load(cf.rk(o.key))
 		mv, mok := m.Load(o.key)
 		calls++
 		if ok != mok || (ok && v != mv) {
@@ -213,7 +240,7 @@ func runSeq(cf config, ops []op, seq []int, c *runner.Ctx) (sig, detail string, 
 			continue
 		}
 		seen[o.key] = true
-		_, ok := lru.Load(o.key)
+		_, ok := lru.Load(cf.rk(o.key))
 		_, mok := m.Load(o.key)
 		calls++
 		if ok != mok {
@@ -293,6 +320,17 @@ func run(c *runner.Ctx) {
 		}
 		cfgs = append(cfgs, config{cap: cp, cb: true, depth: d, same: true}, config{cap: cp, prefil: cp, cb: true, depth: d - 1, same: true})
 	}
+	// unusual keys
+	for cp := 1; cp <= 3; cp++ {
+		d := 5
+		if c.Thorough() {
+			d = 6
+		}
+		if cp == 3 {
+			d--
+		}
+		cfgs = append(cfgs, config{cap: cp, cb: true, depth: d, exotic: true}, config{cap: cp, warm: 2*cp + 1, cb: true, depth: d - 1, exotic: true})
+	}
 	// larger capacity with a longer warm-up crossing the rebuild threshold several times
 	cfgs = append(cfgs, config{cap: 8, warm: 40, prefil: 8, cb: true, depth: 3})
 	if c.Thorough() {
@@ -343,7 +381,7 @@ func main() {
 	runner.Main(runner.Config{
 		Property:  "C09",
 		Technique: "explicit-state bounded-exhaustive exploration of all operation sequences on the real LRUCache, lock-step against a reference model",
-		Rule: "all sequences of length d over {Store (fresh value = step number),Load,Delete}(k in c+1 colliding keys)+Len on valid.NewLRU(c), c=0..4 (+8), and for c=1..3 additionally StoreSame(k) (a value that is constant per key, so re-storing an equal value is covered), from empty, pre-filled and warm-up states around the map-rebuild threshold, " +
+		Rule: "all sequences of length d over {Store (fresh value = step number),Load,Delete}(k in c+1 colliding keys)+Len on valid.NewLRU(c), c=0..4 (+8), and for c=1..3 additionally StoreSame(k) (a value that is constant per key, so re-storing an equal value is covered) and a key alphabet of unusual keys (nil, 0, \"\", struct{}{}, 1.5), from empty, pre-filled and warm-up states around the map-rebuild threshold, " +
 			"with and without removal callback; every step compared with a slice-based LRU model; non-trivial = sequences containing an eviction whose victim differs between LRU and FIFO order",
 		Assumptions: []string{"reference model internal/lrumodel is the specification of C09", "keys are hashable strings; callbacks do not re-enter the cache"},
 		Run:         run,
